@@ -303,7 +303,7 @@ from bacpypes.service.object import ReadWritePropertyServices, ReadWriteProperty
 from bacpypes.service.cov import ChangeOfValueServices
 
 
-class ServiceApp(Application, WhoIsIAmServices, ReadWritePropertyServices, ReadWritePropertyMultipleServices, ChangeOfValueServices):
+class ServiceApp(ApplicationIOController, WhoIsIAmServices, ReadWritePropertyServices, ReadWritePropertyMultipleServices, ChangeOfValueServices):
     pass
 
 
@@ -337,5 +337,57 @@ class SyncClient(Stack):
         CLOCK.settle()
         if len(self.app.inbox) == n0:
             CLOCK.drive(duration=horizon)
+        got = self.app.inbox[n0:]
+        return got[0] if len(got) == 1 else (None if not got else got)
+
+
+# ----------------------------------------------------------------------
+# COV subscriber: records every notification at the boundary
+# ----------------------------------------------------------------------
+
+from bacpypes.primitivedata import Real as _Real, Unsigned as _Unsigned, Enumerated as _Enumerated
+from bacpypes.basetypes import StatusFlags as _StatusFlags
+
+
+class SubscriberApp(RecordingMixin, Application):
+    def __init__(self, device, name, events):
+        Application.__init__(self, device)
+        self.rec_init(name, events)
+        self.notifications = []
+        self.confirmed_reply = "ack"
+
+    def _note(self, apdu, confirmed):
+        vals = {}
+        for pv in apdu.listOfValues:
+            pid = pv.propertyIdentifier
+            try:
+                if pid == "statusFlags":
+                    vals[pid] = list(pv.value.cast_out(_StatusFlags))
+                else:
+                    tag = pv.value.tagList.tagList[0]
+                    obj = tag.app_to_object()
+                    vals[pid] = obj.value
+            except Exception as err:
+                vals[pid] = "undecodable: %r" % (err,)
+        self.notifications.append({"t": CLOCK.now, "who": self.name, "confirmed": confirmed, "proc": apdu.subscriberProcessIdentifier,
+                                   "obj": tuple(apdu.monitoredObjectIdentifier), "remaining": apdu.timeRemaining, "values": vals,
+                                   "device": tuple(apdu.initiatingDeviceIdentifier)})
+
+    def do_ConfirmedCOVNotificationRequest(self, apdu):
+        self._note(apdu, True)
+        self.response(SimpleAckPDU(context=apdu))
+
+    def do_UnconfirmedCOVNotificationRequest(self, apdu):
+        self._note(apdu, False)
+
+
+class Subscriber(Stack):
+    def __init__(self, lan, address, events=None, **kw):
+        Stack.__init__(self, lan, address, events if events is not None else [], "sub%s" % address, SubscriberApp, **kw)
+
+    def call(self, req, horizon=20.0):
+        n0 = len(self.app.inbox)
+        self.app.request(req)
+        CLOCK.settle()
         got = self.app.inbox[n0:]
         return got[0] if len(got) == 1 else (None if not got else got)
